@@ -54,7 +54,10 @@ func runCase(phase string, i int) worker.Result {
 	seed := evidence.Seed()
 	rng := evidence.RandFor(seed, "c01-"+phase, i)
 	ctx := context.Background()
-	c := copymon.GenCase(rng, copymon.GenOpts{MaxNodes: map[string]int{"quick": 40, "thorough": 120}[evidence.Tier()], MaxDelay: 300 * time.Microsecond, ManifestAsBlob: true, TitleClash: true, RaceWriter: true})
+	c := copymon.GenCase(rng, copymon.GenOpts{MaxNodes: map[string]int{"quick": 40, "thorough": 120}[evidence.Tier()], MaxDelay: 300 * time.Microsecond, ManifestAsBlob: true, TitleClash: true, RaceWriter: true, Trees: true})
+	if c.G.HasTrees() {
+		res.Count("cases_with_custom_FindSuccessors_over_tree_nodes", 1)
+	}
 	e, err := c.Setup(ctx)
 	if err != nil {
 		res.Violate("harness:setup", err.Error(), c.Describe())
